@@ -64,6 +64,8 @@ def model_check(rep, wd, tier):
         uni = universe(bc, codec)
         if tier == 'quick':
             uni = uni[:6] + uni[-2:]
+        else:
+            uni = uni[:8] + uni[-2:]      # 10 of 11 elements: the full universe needs > 40 min per codec
         batch = {'consts': isoc.consts(bc, codec), 'traces': [], 'universe': uni}
         import json
         import os
@@ -121,6 +123,10 @@ def _drive(args):
                 out.append(isocheck.roundtrip_trace(tid, m, bc, codec, hexb, 'length sweep DE%s len %d' % (b, n)))
                 tid += 1
         return out
+    if cfgspec[0] == 'pkgvar':
+        # same process, same element numbers, another carrier assignment used just before
+        for i in range(3):
+            isoc.iso8583.dumps({'MTI': '1240', 'PDS0001': 'warm-up %d' % i}, iso_config=isocheck.get_config(('pkg',)))
     for tid in range(lo, hi):
         r = drv.rng(seed, 'c01', cfgspec, codec, tid)
         m = isoc.gen_message(r, bc, alpha, maxbits=r.choice((3, 8, 20, 40)))
@@ -138,7 +144,7 @@ def run(rep, wd, tier, seed):
     for codec in isocheck.CODECS_QUICK:
         jobs.append((seed, ('pkg',), codec, 'sweep', tier, 0))
     nrand = 2500 if tier == 'thorough' else 150
-    cfgs = [('pkg',)] + [('gen', seed * 100 + i) for i in range(6 if tier == 'thorough' else 2)]
+    cfgs = [('pkg',), ('pkgvar', 0), ('pkgvar', 1)] + [('gen', seed * 100 + i) for i in range(6 if tier == 'thorough' else 2)]
     for cfgspec in cfgs:
         for codec in (codecs if cfgspec[0] == 'pkg' else isocheck.CODECS_QUICK):
             n = nrand if codec in isocheck.CODECS_QUICK else max(40, nrand // 10)
